@@ -6,6 +6,8 @@
 (* Covered: root fields (several per subgraph request), entity-fetched        *)
 (* fields across subgraphs, @provides, shareable fields, list items, unions   *)
 (* and interfaces (fields selected on the interface and on the object),       *)
+(* one coordinate served by two data sources in independent subtrees          *)
+(* (User.realName is shareable, User.username is @provided by reviews),       *)
 (* aliases, merged selections, @defer (object anchor, list anchor, nested,    *)
 (* abstract), mutations (one / two root fields, nested entity fetches).       *)
 Menu == <<
@@ -21,6 +23,7 @@ Menu == <<
   [id |-> "q_iface",     text |-> "query { identifiable { __typename id ... on User { username reviews { body } } } }"],
   [id |-> "q_nested",    text |-> "query { someNestedInterfaces { __typename otherInterfaces { __typename someObject { a b } ... on SomeType1 { name age } } } }"],
   [id |-> "q_cds",       text |-> "query { cds { __typename ... on C { name { first last } } ... on D { name { first middle } } } }"],
+  [id |-> "q_shared",    text |-> "query { me { id username realName } topProducts { upc reviews { body author { id username realName } } } }"],
   [id |-> "d_me",        text |-> "query { me { id ... @defer { realName } } }"],
   [id |-> "d_me_rev",    text |-> "query { me { id username ... @defer { reviews { body author { id username } } } } }"],
   [id |-> "d_top",       text |-> "query { topProducts { upc ... @defer { name price reviews { body } } } }"],
